@@ -126,6 +126,9 @@ type IdP struct {
 	OnToken func(call *TokenCall) string
 	// OnJWKS is called at JWKS-endpoint entry; returning false makes it answer 500.
 	OnJWKS func() bool
+	// DiscFailFirst makes the first k discovery requests fail with 503 after DiscDelay.
+	DiscFailFirst int64
+	DiscDelay     time.Duration
 	// ChallengeMethods, if set, is advertised as code_challenge_methods_supported in the discovery document.
 	ChallengeMethods []string
 	// NoEndSession leaves end_session_endpoint out of the discovery document.
@@ -283,6 +286,11 @@ func (p *IdP) ServeHTTP(w http.ResponseWriter, r *http.Request) {
 		_, _ = w.Write([]byte(body))
 	case "/.well-known/openid-configuration":
 		atomic.AddInt64(&p.DiscHits, 1)
+		if atomic.AddInt64(&p.DiscFailFirst, -1) >= 0 {
+			time.Sleep(p.DiscDelay)
+			http.Error(w, "discovery temporarily unavailable", http.StatusServiceUnavailable)
+			return
+		}
 		d := map[string]any{
 			"issuer": p.Base(), "authorization_endpoint": p.AuthURL(), "token_endpoint": p.TokenURL(),
 			"jwks_uri": p.JWKSURL(), "response_types_supported": []string{"code"},
